@@ -154,11 +154,45 @@ func c03Initiator(rc *RC) {
 	var sess *xmpp.Session
 	var err error
 	done := false
+	// in a quarter of the runs the initiator's context ends in the middle of the exchange: when the k-th challenge (or
+	// the verdict) is on its way, or after drawn steps; half of those on a transport without deadlines
+	initPlain := false
+	if ch.Chance("faults", 1, 4) {
+		initPlain = tlsMode == 0 && ch.Chance("faults", 1, 2)
+		mode, k, after := ch.Int("faults", 2), 1+ch.Int("faults", 2), ch.Range("faults", 1, 300)
+		for i, m := range plan {
+			// biased to the instant at which the mechanism is complete on the client's side and the verdict is still out
+			if m == "final-in-challenge" && ch.Chance("faults", 3, 4) {
+				mode, k = 0, i+1
+				break
+			}
+		}
+		t := rc.Spawn("canceller", func() {
+			start := rc.S.Steps
+			simrt.WaitUntil("cancel", func() bool {
+				if done {
+					return true
+				}
+				if mode == 0 {
+					tp := sc.Out().Tap
+					return bytes.Count(tp, []byte("<challenge"))+bytes.Count(tp, []byte("<success"))+bytes.Count(tp, []byte("<failure")) >= k
+				}
+				return rc.S.Steps-start >= after
+			})
+			if !done {
+				rc.Fire("cancel")
+				simrt.Settle(cancel, "h:cancel")
+			}
+		})
+		t.Daemon = true
+	}
 	rc.Spawn("sut", func() {
 		f := wrapFeature(rc, xmpp.SASL("", "pass", prefs...), &steps)
 		var rw io.ReadWriter = cc
 		if tlsMode != 0 {
 			rw = tlsStateConn{cc, tls.ConnectionState{Version: tls.VersionTLS12, HandshakeComplete: true, TLSUnique: []byte("unique-of-this-channel")}}
+		} else if initPlain {
+			rw = plainRW{&trackConn{Conn: cc}}
 		}
 		sess, err = xmpp.NewSession(ctx, origin.Domain(), origin, rw, xmpp.Secure, xmpp.NewNegotiator(func(*xmpp.Session, *xmpp.StreamConfig) xmpp.StreamConfig {
 			return xmpp.StreamConfig{Features: []xmpp.StreamFeature{f}}
